@@ -555,10 +555,11 @@ type Env struct {
 	Vars map[string]Term
 	Old  *Env
 	P    *Program
+	Ren  map[string]string // names of the contract whose source variables have since been renamed (rename.go)
 }
 
 func (e *Env) child() *Env {
-	n := &Env{Vars: map[string]Term{}, Old: e.Old, P: e.P}
+	n := &Env{Vars: map[string]Term{}, Old: e.Old, P: e.P, Ren: e.Ren}
 	for k, v := range e.Vars {
 		n.Vars[k] = v
 	}
@@ -583,6 +584,9 @@ func (env *Env) tr(x Expr) (Term, error) {
 		}
 		if fs, ok := sg.Funs[x.Name]; ok && len(fs.Args) == 0 {
 			return Term{x.Name, fs.Ret}, nil
+		}
+		if t, ok := env.renamed(x.Name); ok {
+			return t, nil
 		}
 		return Term{}, fmt.Errorf("unknown identifier %q", x.Name)
 	case *EOld:
